@@ -207,6 +207,7 @@ Record nfile := mkNfile {
 
 Definition nifti_w_status (D C : nat) : rstatus :=
   match assoc key2_eqb (D, cclass C) gen_nifti_w_status with Some s => s | None => EOther end.
+Definition nifti_w_layout (D C : nat) : option nlayout := oflat (assoc key2_eqb (D, cclass C) gen_nifti_w_layout).
 Definition nifti_r_status (L : nlayout) (D C : nat) : rstatus :=
   match assoc keyL_eqb (L, D, if Nat.eqb C 1 then 1%nat else 2%nat) gen_nifti_r_status with Some s => s | None => EOther end.
 Definition nifti_r_type (t : npty) : option npty := oflat (assoc npty_eqb t gen_nifti_r_type).
@@ -219,7 +220,11 @@ Definition write_nifti (D : nat) (x : image) : option nfile :=
   match sel D (gen_nifti_w_affine_2 (i_origin x) (i_spacing x) (i_dir x))
               (gen_nifti_w_affine_3 (i_origin x) (i_spacing x) (i_dir x)) None with
   | None => None
-  | Some aff => Some (mkNfile LOwn D (i_size x) (i_chan x) (i_spacing x ++ repeat 1 (3 - D)) aff (i_type x) (i_data x))
+  | Some aff =>
+      match nifti_w_layout D (i_chan x) with       (* dimensions + intent code handed to nibabel, as traced *)
+      | Some L => Some (mkNfile L D (i_size x) (i_chan x) (i_spacing x ++ repeat 1 (3 - D)) aff (i_type x) (i_data x))
+      | None => None
+      end
   end.
 
 Definition read_nifti (f : nfile) : option image :=
